@@ -74,8 +74,8 @@ def sweep_spec(chars, convert):
     """Many characters per document: as single characters and at string boundaries."""
     rows = []
     for i, c in enumerate(chars):
-        rows.append([f"#{i}#{c}", c, "a" + c, c + "b", "a" + c + "b"])
-    return {"df": {"cols": ["id", "c0", "c1", "c2", "c3"], "rows": rows},
+        rows.append([f"#{i}#{c}", c, "a" + c + "b"])
+    return {"df": {"cols": ["id", "c0", "c1"], "rows": rows},
             "body": {"text_convert": convert}, "page": {"nrow": 45}, "title": None, "headers": [],
             "kind": "single", "strategy": "sweep", "_expected": []}
 
@@ -124,7 +124,7 @@ def generate(g, i):
     return sweep_spec(chars, conv)
 
 
-def exhaustive_docs(per_doc=1500):
+def exhaustive_docs(per_doc=1000):
     cur = []
     for c in range(0x20, 0x110000):
         if scalar_ok(c, False):
@@ -154,7 +154,7 @@ def run(ctx):
             res["failures"].append({"kind": "holds" if cls == "holds" else "corr", "name": "sweep", "spec": rec["spec"] if len(str(rec["spec"])) < 20000 else "sweep doc too large; first chars: " + repr(rec["spec"]["df"]["rows"][0]),
                                     "result": rec["result"], "what": "exhaustive code-point sweep: a character is not read back intact", "signature": None})
     res["coverage"]["exhaustive_sweep"] = {"code_points": sum(len(d) for d in docs), "documents": len(docs), "outcomes": stats,
-                                           "space": "every Unicode scalar value except C0/C1 controls, surrogates and \\ { }, each as c, ac, cb, acb in body cells"}
+                                           "space": "every Unicode scalar value except C0/C1 controls, surrogates and \\ { }, each as c (alone and after a tag) and a·c·b in body cells"}
     res["coverage"]["exhaustive"] = True
     res["coverage"]["evaluations"] += len(docs)
     return res
